@@ -112,6 +112,7 @@ def run(rep, props, replay=None):
         if i % 4 == 0:
             case_2d(rep, rng, runq, todo, quick, i)
     kernel_monitor(rep)
+    integer_design(rep, rng)
     # the TRANSLATED kernels (Gen/Kernels.v, regenerated from the source text) executed in Q against the running code:
     # validates the translator itself (what it emits is what the code computes), incl. the support boundary
     from FDApy.preprocessing.smoothing import local_polynomial as lpmod
@@ -226,6 +227,31 @@ def default_query(rep, kernel, h, p, x, y, distinct, replay_d):
     if e_def.shape != e_exp.shape or np.max(np.abs(e_def - e_exp)[fin], initial=0) > 1e-9 * max(1.0, float(np.max(np.abs(y)))):
         rep.violation(f"predict with x_new left to its default ({kernel}, degree {p}) differs from predict at the distinct design "
                       f"points given explicitly (design with {len(x) - len(distinct)} tied observations)", replay_d)
+
+
+def integer_design(rep, rng):
+    """an integer-dtype design (days 1..365, indices) with non-integer query points gives what the same numbers give as floats"""
+    xi = np.arange(1, 41) * int(rng.integers(1, 4))
+    y = np.round((np.sin(xi / 7.0) * 3 + rng.normal(size=len(xi)) * 0.2) * 256) / 256
+    xq = np.sort(np.round(rng.uniform(xi[2], xi[-3], size=5) * 16) / 16 + 1.0 / 32)          # never integers
+    for kernel, p in (("epanechnikov", 1), ("gaussian", 2)):
+        h = float(8 * (xi[1] - xi[0]))
+        with warnings.catch_warnings():
+            warnings.simplefilter("ignore")
+            ei = np.asarray(make_lp(kernel, h, p).predict(y=y, x=xi, x_new=xq), float)
+            ef = np.asarray(make_lp(kernel, h, p).predict(y=y, x=xi.astype(float), x_new=xq), float)
+            yi = np.round(y * 4).astype(int)
+            e2 = np.asarray(make_lp(kernel, h, p).predict(y=yi, x=xi, x_new=xq), float)
+            e2f = np.asarray(make_lp(kernel, h, p).predict(y=yi.astype(float), x=xi.astype(float), x_new=xq), float)
+        rep.case(("integer-design", kernel, p, xi.tobytes(), xq.tobytes()), kind="dtype/integer-design")
+        bad = []
+        if ei.shape != ef.shape or np.max(np.abs(ei - ef)) > 1e-10 * max(1.0, float(np.max(np.abs(ef)))):
+            bad.append(f"integer-dtype design: estimates differ from the float design by {np.max(np.abs(ei - ef)):.3g}")
+        if e2.shape != e2f.shape or np.max(np.abs(e2 - e2f)) > 1e-10 * max(1.0, float(np.max(np.abs(e2f)))):
+            bad.append(f"integer-dtype design and responses: estimates differ from the float version by {np.max(np.abs(e2 - e2f)):.3g}")
+        if bad:
+            rep.violation(f"local polynomial smoother ({kernel}, degree {p}): " + "; ".join(bad),
+                          {"x": xi.tolist(), "y": C.hexf(y), "x_new": C.hexf(xq)})
 
 
 def kernel_monitor(rep):
